@@ -245,9 +245,21 @@ pub fn handle_with(mut rq: Request, act: &Action, peer_expect: &str, partial: Op
             }
         }
     }
+    // the head is the request's, not a view that changes with what the application does: after the body has been
+    // asked for, the method, target, version, headers and length reported are those reported at delivery
+    let hs2: Vec<(Vec<u8>, Vec<u8>)> = rq
+        .headers()
+        .iter()
+        .map(|h| (h.field.as_str().as_bytes().to_vec(), h.value.as_str().as_bytes().to_vec()))
+        .collect();
+    let stable = hs2 == hs
+        && rq.method().as_str().as_bytes() == m.as_slice()
+        && rq.url().as_bytes() == u.as_slice()
+        && format!("{}.{}", rq.http_version().0, rq.http_version().1) == v
+        && rq.body_length() == bl;
     let render = |got: &Vec<u8>, end: &str| {
         format!(
-            "[m={},u={},v={},h={},bl={},rd={},e={}{}]",
+            "[m={},u={},v={},h={},bl={},rd={},e={}{}{}]",
             hex(&m),
             hex(&u),
             v,
@@ -259,7 +271,8 @@ pub fn handle_with(mut rq: Request, act: &Action, peer_expect: &str, partial: Op
             bl.map(|x| x.to_string()).unwrap_or("-".into()),
             hex(got),
             end,
-            if addr_ok { "" } else { ",addr=WRONG" }
+            if addr_ok { "" } else { ",addr=WRONG" },
+            if stable { "" } else { ",head=CHANGED-AFTER-BODY-ACCESS" }
         )
     };
     if let Some(p) = &partial {
